@@ -128,6 +128,7 @@ type SessionCfg struct {
 	NoListen bool
 	Cwd      string
 	Bin      string
+	AsNobody bool // run fzf as the unprivileged user "nobody" (setpriv), e.g. to meet unreadable directories
 }
 
 type Session struct {
@@ -165,6 +166,14 @@ func StartSession(t fataler, cfg SessionCfg) *Session {
 	bin := fzfBin
 	if cfg.Bin != "" {
 		bin = cfg.Bin
+	}
+	if cfg.AsNobody {
+		// the session directory receives the port file written by fzf
+		os.Chmod(s.Dir, 0o777)
+		os.Chmod(filepath.Join(s.Dir, "tmp"), 0o777)
+		wrapper := filepath.Join(s.Dir, "as-nobody.sh")
+		os.WriteFile(wrapper, []byte("#!/bin/sh\nexec setpriv --reuid=65534 --regid=65534 --clear-groups "+shQuote(bin)+" \"$@\"\n"), 0o755)
+		bin = wrapper
 	}
 	args := append([]string{}, cfg.Args...)
 	if !cfg.NoListen {
